@@ -318,8 +318,10 @@ func monitorC14(cs *C14Scenario, out *UCIOutcome, windows []*goWindow) (vs []Vio
 		if c.Ponder && !c.PonderOff {
 			ref = w.hitT
 			if ref < 0 {
-				add("HARNESS", "ponderhit not recorded", w.goSeq)
-				vs[len(vs)-1].Property = "HARNESS"
+				// the GUI sends nothing but the ponderhit in this window: if the
+				// search was over before it arrived, a deadline must have fired
+				// while the engine was still pondering
+				add("nonpositive", fmt.Sprintf("case %+v (%q): the search was stopped %d us after go ponder, before the ponderhit arrived", c, w.goLine, w.call.TStop-w.goT), w.goSeq)
 				continue
 			}
 		}
